@@ -12,10 +12,10 @@ use serde_json::{json, Value};
 pub const DEF: PropDef = PropDef {
     id: "C01",
     level: "exploration",
-    rule: "cases = (dataset, query) pairs: datasets are subsets of a fixed 10-quad universe (same triple in default/g1/g2, chain, self-loop, numeric values, named-only quad) with and without an extra empty named graph (quick: the subsets of size <=1 or >=9; thorough: all 2048); queries are every AST of the generator grammar (qgen.rs): all sequences of <=2 (thorough: + <=3 over a core list) elements from ~90 shapes (12 triple templates, multi-pattern blocks, GRAPH <iri>/?g incl. empty group, UNION, nested groups, sub-SELECTs with DISTINCT/ORDER/LIMIT/GROUP BY, inner group-scoped filters) + FILTER at every position, BIND(CONCAT), VALUES with UNDEF, and every solution modifier (DISTINCT, projections, SELECT *, FROM/FROM NAMED, GROUP BY + SUM/MIN/MAX/AVG, ORDER BY, LIMIT); each pair is executed on a fresh database through execute_sparql_query (and, on the datasets of size >=9, also through the legacy execute_query_rayon_parallel2_volcano) and compared with the SPARQL-algebra reference evaluator (multiset equality; sortedness under ORDER BY; legal cut under LIMIT). Non-trivial = reference answer non-empty and query has >=2 operators; distinct = distinct (query, answer).",
+    rule: "cases = (dataset, query) pairs: datasets are subsets of a fixed 10-quad universe (same triple in default/g1/g2, chain, self-loop, numeric values, named-only quad) with and without an extra empty named graph (quick: the subsets of size <=1 or >=9; thorough: all 2048); queries are every AST of the generator grammar (qgen.rs): all sequences of <=2 (thorough: + <=3 over a core list) elements from ~90 shapes (12 triple templates, multi-pattern blocks, GRAPH <iri>/?g incl. empty group, UNION, nested groups, sub-SELECTs with DISTINCT/ORDER/LIMIT/GROUP BY, inner group-scoped filters) + FILTER at every position, BIND(CONCAT), VALUES with UNDEF, and every solution modifier (DISTINCT, projections, SELECT *, FROM/FROM NAMED, GROUP BY + SUM/MIN/MAX/AVG, ORDER BY, LIMIT); each pair is executed on a fresh database through execute_sparql_query (and, on the datasets of size >=9, also through the legacy execute_query_rayon_parallel2_volcano) and compared with the SPARQL-algebra reference evaluator (multiset equality; sortedness under ORDER BY; legal cut under LIMIT). Round-3 families (each with `fam_<family>_queries/_cases/_nonempty` and `x_<crossing>` vacuity counters, and a structural failure tag `q:<family>`): BIND inside an inner group (nested braces, UNION branch, GRAPH) whose target is also bound by a sibling element (VALUES, triple pattern, sub-select; both textual orders; below a further join), two inner groups binding the same target, a braced group holding only a BIND over constants (C01-only list: C16's tree comparison distinguishes `{ BIND }` from an inline BIND); simple comparisons with the constant on the LEFT (mirrored operator) and the order operators >, <=, and variable-variable <=, >, >= after the last element of every decorated base; GROUP BY without any aggregate (one key, two keys, a projected subset of the keys, with DISTINCT / ORDER BY / LIMIT, and as a sub-select joined with its base; sub-select S10 in every position); subject stars (>=3 default-scope patterns sharing the subject: the StarJoin rewrite is syntactic) in one or two triples blocks, with a variable predicate, two stars in one group, each under every filter (Filter(StarJoin)), VALUES/BIND decoration and FROM / FROM + FILTER (merged default graphs inside the star executor); labelled error-semantics family (C01-only list): `!` over a comparison of an in-scope but possibly unbound variable or over a division by zero, alone and under || / &&, and BIND(CONCAT) over an in-scope but possibly unbound argument - justified by SPARQL 1.1 17.2 / 18.5 Extend error semantics only, hence kept apart and tagged q:not_over_possible_error / q:bind_arg_possibly_unbound. Non-trivial = reference answer non-empty and query has >=2 operators; distinct = distinct (query, answer).",
     assumptions: &[
         "term universe U of DESIGN.md §2 (3 IRIs, 2 predicates, numeric literals 1/2, graphs g1,g2, empty g3, absent gx)",
-        "value model: terms are bare lexical forms; order comparisons, ORDER BY keys and aggregates only over numeric values; FILTER/BIND only over certainly bound in-scope variables (the property's quantifier)",
+        "value model: terms are bare lexical forms; order comparisons, ORDER BY keys and aggregates only over numeric values; in the main enumeration FILTER/BIND only mention certainly bound in-scope variables; the labelled error-semantics family mentions in-scope variables that may be unbound (still inside the property's quantifier: `variables in scope of their own group`); aggregates over possibly unbound values are NOT generated (whether an error inside SUM poisons the group is not fixed by the statement)",
         "reference evaluator harness/src/reference/sparql_eval.rs (self-tested against hand-computed cases)",
     ],
     run,
